@@ -26,7 +26,7 @@ type spreader interface {
 
 func newTree(cfg *config, roots []*Node) *tree {
 	growerFactory := func(lastNodeFormat, intermedialNodeFormat branchFormat, dryrun bool, encode encode) grower {
-		if encode != encodeDefault {
+		if encode != encodeDefault && !dryrun {
 			return newNopGrower()
 		}
 		return newGrower(lastNodeFormat, intermedialNodeFormat, dryrun)
